@@ -12,6 +12,12 @@ NOT_APPLICABLE = {
 }
 
 CLAIMS = {
+    "C02": {
+        "text": "Decides two structural clauses only, not which set the operators compute: (R2.1) degenerate receiver — typestate of the receiver (unknown / marked non-empty / semantically non-empty / maybe empty) along every CFG path to each of the 119 call sites of members that assert `!marked_empty()` on entry (the asserted preconditions are read from the assertion-enabled view on every run): no such member is applied after a same-object call that may have found the receiver empty without an intervening emptiness test — otherwise the operation aborts instead of returning the documented empty set; (R2.2) dimension alignment — on every path through a member that changes space_dim each description is edited, known not up to date, withdrawn or replaced wholesale. The set-theoretic content of the operators (signs, invertibility case split, epsilon encoding, conversions) is numeric and NOT decided.",
+        "design_ref": "DESIGN.md §3 C02",
+        "note": "may-mark-empty / adds-constraints summaries are may-analyses over same-object callees (depth 3); one call site is a reasoned exception (BHRZ03 widening precondition y <= x)",
+        "technique": "branch-sensitive typestate over clang CFG with callee summaries; preconditions mined from the assertion-enabled view",
+    },
     "C01": {
         "text": "Decides protocol clauses of the Polyhedron lazy representation, not the double-description arithmetic: (R1.1) flag typestate over every CFG path — after a row is inserted into a description no path leaves that description's `minimized` claim standing, and after an insertion into the constraint system no path leaves `generators up to date` claimed (non-public writers hand the obligation to their callers); (R1.3) every insert_pending is followed on every path by the matching set_*_pending (correlated boolean locals such as `adding_pending` tracked); (R13.4) const members strip constness only at the 53 confirmed lazy-update sites. Necessary for 'the two descriptions denote the same set whatever the history' and 'observing never changes the set'. Write kinds other than row insertion (affine maps, dimension changes, sorting) are counted but not judged; the value preservation of the lazy-update members, conversion, minimization and every query's arithmetic are NOT decided (a seeded numeric shortcut in is_universe() is not detected, see DESIGN).",
         "design_ref": "DESIGN.md §3 C01",
